@@ -20,7 +20,7 @@ PROPERTY = 'C10'
 LEVEL = 'model_checking'
 RULE = ('BFS over histories of {addReader, addWriter, removeReader, removeWriter, discard, peer write, drain, fill send buffer, '
         'unfill, peer close, add reader/writer by a second component, discard+close+reopen (same fd number), close-without-discard+reopen+register} on 1-2 real socket pairs; '
-        'each history replayed under Select, Poll and EPoll; state = set-model roles x measured kernel readiness x poller tables; '
+        'also with the descriptors handed over as plain numbers (close without discard, loop iterations, then the number given to a descriptor nobody registered); each history replayed under Select, Poll and EPoll; state = set-model roles x measured kernel readiness x poller tables; '
         'non-trivial = state in which some descriptor is registered for a role and ready for it; distinct = distinct canonical state')
 ASSUMPTIONS = [
     'set model: add* is idempotent, one remove*/discard ends the registration (the statement quantifies over every sequence)',
@@ -136,9 +136,10 @@ class World:
 
 
 class PollModel(e1_history.Model):
-    def __init__(self, nsock, ops):
+    def __init__(self, nsock, ops, as_int=False):
         self.nsock = nsock
         self.opnames = ops
+        self.as_int = as_int       # descriptors are handed to the poller as plain numbers (as circuits.io.File and Notify do)
 
     # ghost: roles[i] = set of 'r','w'; kernel facts are measured
     def enabled(self, hist):
@@ -146,6 +147,11 @@ class PollModel(e1_history.Model):
         out = []
         for i in range(self.nsock):
             for op in self.opnames:
+                if op == 'take':
+                    # (after `cx` and the loop iterations that follow every operation: the poller has had its chance to notice)
+                    if g['gone'][i] and not g['taken'][i]:
+                        out.append((op, i))
+                    continue
                 if g['gone'][i]:
                     continue
                 if op == 'peer_write' and not (g['peer_open'][i] and not g['peer_full'][i]):
@@ -172,7 +178,8 @@ class PollModel(e1_history.Model):
     def ghost(self, hist):
         n = self.nsock
         g = {'roles': [set() for _ in range(n)], 'peer_open': [True] * n, 'has_data': [False] * n, 'filled': [False] * n,
-             'gen': [0] * n, 'removed_once': [0] * n, 'peer_full': [False] * n, 'gone': [False] * n, 'closed_undiscarded': [False] * n, 'late': [0] * n}
+             'gen': [0] * n, 'removed_once': [0] * n, 'peer_full': [False] * n, 'gone': [False] * n, 'closed_undiscarded': [False] * n, 'late': [0] * n,
+             'taken': [False] * n}
         g['adder'] = [dict() for _ in range(n)]      # role -> 'A' | 'B', the component whose add* came last for that role
         g['last'] = [None] * n                        # the component whose add* (any role) came last for the descriptor
         for op, i in hist:
@@ -213,6 +220,12 @@ class PollModel(e1_history.Model):
                 g['peer_open'][i], g['has_data'][i], g['filled'][i] = False, False, False
             elif op in ('ldisc', 'lremr'):
                 g['late'][i] += 1
+            elif op == 'cx':
+                g['roles'][i].clear()
+                g['gone'][i] = True
+                g['peer_open'][i], g['has_data'][i], g['filled'][i] = False, False, False
+            elif op == 'take':
+                g['taken'][i] = True
             elif op == 'ccr':
                 g['closed_undiscarded'][i] = True
                 g['roles'][i] = {'r'}
@@ -238,20 +251,25 @@ class PollModel(e1_history.Model):
         sd = sub.sides[i]
         po = sub.poller
         owner = sub.owners[i]
+        key = sd.s
+        if self.as_int:
+            if not hasattr(sd, 'number'):
+                sd.number = sd.s.fileno()      # the number the application knows the descriptor by (it does not learn of a take-over)
+            key = sd.number
         if name == 'addReader':
-            po.addReader(owner, sd.s)
+            po.addReader(owner, key)
         elif name == 'addWriter':
-            po.addWriter(owner, sd.s)
+            po.addWriter(owner, key)
         elif name == 'addReaderB':
-            po.addReader(sub.second, sd.s)
+            po.addReader(sub.second, key)
         elif name == 'addWriterB':
-            po.addWriter(sub.second, sd.s)
+            po.addWriter(sub.second, key)
         elif name == 'removeReader':
-            po.removeReader(sd.s)
+            po.removeReader(key)
         elif name == 'removeWriter':
-            po.removeWriter(sd.s)
+            po.removeWriter(key)
         elif name == 'discard':
-            po.discard(sd.s)
+            po.discard(key)
         elif name == 'peer_write':
             sd.peer.send(b'a')
         elif name == 'drain':
@@ -283,6 +301,26 @@ class PollModel(e1_history.Model):
                     (po.discard if name == 'ldisc' else po.removeReader)(dead[-1])
                 except (ValueError, OSError):
                     pass    # the call itself may refuse a closed object; what the poller reports afterwards is judged
+        elif name == 'cx':
+            # closed WITHOUT discard (the application forgot to tell the poller); the number is free now
+            if self.as_int and not hasattr(sd, 'number'):
+                sd.number = sd.s.fileno()
+            sub.dead.append(sd.s)
+            sd.s.close()
+            sd.peer.close()
+        elif name == 'take':
+            # ... and later the number is given to a descriptor the poller was never told about (readable and writable)
+            import os
+            a, b = socket.socketpair()
+            b.send(b'z')
+            no = getattr(sd, 'number', None)
+            if no is not None and a.fileno() != no:
+                os.dup2(a.fileno(), no)
+                a.close()
+                sub.aliens = getattr(sub, 'aliens', []) + [no]
+            else:
+                sub.aliens = getattr(sub, 'aliens', []) + [a.detach()]
+            sub.aliens.append(b.detach())
         elif name == 'ccx':
             # closed WITHOUT discard; its number is taken over by a descriptor the poller was never told about
             import os
@@ -342,6 +380,12 @@ class PollModel(e1_history.Model):
         per_poller = []
         any_ready = False
         for sub, (it1, it2) in zip(w.subs, w.last_iter):
+            if self.as_int:
+                # events name numbers: put the socket object of the live side with that number in their place for the clauses below
+                live = {sd.number: sd.s for j, sd in enumerate(sub.sides) if hasattr(sd, 'number') and not g['gone'][j]}
+                raw1, raw2 = it1, it2
+                it1 = [(n, live.get(x, x), c) for n, x, c in it1]
+                it2 = [(n, live.get(x, x), c) for n, x, c in it2]
             label = {}
             for i, sd in enumerate(sub.sides):
                 label[id(sd.s)] = i
@@ -349,6 +393,16 @@ class PollModel(e1_history.Model):
             obs2 = set()
             for which, evs in (('first', it1), ('second', it2)):
                 for name, sock, chan in evs:
+                    if isinstance(sock, int) and self.as_int:
+                        owner_i = [j for j, sd in enumerate(sub.sides) if getattr(sd, 'number', None) == sock]
+                        if owner_i and g['gone'][owner_i[0]] and name in ('_disconnect', '_error') and not g['taken'][owner_i[0]]:
+                            continue        # the poller noticing that the number has been closed (before anybody else got it)
+                        if owner_i and g['gone'][owner_i[0]]:
+                            bad.append(('V4-dead-descriptor:' + name, '%s: %s names descriptor number %d, which was closed earlier (the number now belongs to '
+                                        'a descriptor nobody registered)' % (sub.pname, name, sock)))
+                            continue
+                        if owner_i:
+                            sock = sub.sides[owner_i[0]].s
                     if id(sock) in deadids:
                         bad.append(('V4-dead-descriptor:' + name, '%s: %s names a socket that was discarded/closed earlier (fd number reused)' % (sub.pname, name)))
                         continue
@@ -428,7 +482,7 @@ class PollModel(e1_history.Model):
             if (kind, text) in seen:
                 continue
             seen.add((kind, text))
-            st.fail(kind, '%s  [history %r]' % (text, list(hist)), {'nsock': self.nsock, 'ops': self.opnames, 'hist': [list(o) for o in hist]})
+            st.fail(kind, '%s  [history %r]' % (text, list(hist)), {'nsock': self.nsock, 'ops': self.opnames, 'as_int': self.as_int, 'hist': [list(o) for o in hist]})
         if len(hist) == 3 and len(st.samples) < 2:
             st.sample({'hist': [list(o) for o in hist], 'events_second_iteration': sorted(map(list, per_poller[0]))})
 
@@ -469,6 +523,7 @@ class PollModel(e1_history.Model):
 
 FULL_OPS = ['addReader', 'addWriter', 'removeReader', 'removeWriter', 'discard', 'peer_write', 'drain', 'fill', 'unfill',
             'peer_close', 'dcr', 'ccr', 'ccx', 'ldisc']
+INT_OPS = ['addReader', 'addWriter', 'removeReader', 'removeWriter', 'discard', 'peer_write', 'drain', 'peer_close', 'cx', 'take']
 TWO_OWNER_OPS = ['addReader', 'addWriter', 'addReaderB', 'addWriterB', 'removeReader', 'removeWriter', 'discard', 'peer_write']
 SMALL_OPS = ['addReader', 'addWriter', 'removeWriter', 'discard', 'peer_write', 'dcr', 'ccr', 'ldisc']
 
@@ -478,9 +533,10 @@ def run(tier, seed, workers):
         (1, FULL_OPS, 12), (2, SMALL_OPS, 8), (2, FULL_OPS, 6), (1, TWO_OWNER_OPS, 9), (2, TWO_OWNER_OPS, 5)]
     total = core.Stats()
     states = 0
-    for nsock, ops, depth in plan:
-        st = e1_history.bfs(PollModel(nsock, ops), depth, workers, seed, max_states=300000)
-        st.bounds = {'sockets%d_ops%d' % (nsock, len(ops)): dict(st.bounds)}
+    plan = [p + (False,) for p in plan] + [(1, INT_OPS, 5 if tier == 'quick' else 8, True), (2, INT_OPS, 3 if tier == 'quick' else 5, True)]
+    for nsock, ops, depth, as_int in plan:
+        st = e1_history.bfs(PollModel(nsock, ops, as_int), depth, workers, seed, max_states=300000)
+        st.bounds = {'sockets%d_ops%d%s' % (nsock, len(ops), '_registered_by_number' if as_int else ''): dict(st.bounds)}
         states += st.states
         total.merge(st)
     # many descriptors at once (one long history, not a search): every registered-and-ready descriptor is reported, each once
@@ -510,7 +566,7 @@ def run(tier, seed, workers):
 
 
 def replay(wj):
-    model = PollModel(wj['nsock'], wj['ops'])
+    model = PollModel(wj['nsock'], wj['ops'], bool(wj.get('as_int')))
     hist = tuple(tuple(o) for o in wj['hist'])
     w = model.build(hist)
     st = core.Stats()
